@@ -499,3 +499,41 @@ func dominatesInstr(a, b ssa.Instruction) bool {
 	}
 	return a.Block().Dominates(b.Block())
 }
+
+// valueAlternatives: the ways a boolean value can have polarity pol. A
+// short-circuit phi with several admissible edges (`a || b` being true, `a &&
+// b` being false) yields one alternative per edge: the facts of the edge's
+// path plus the alternatives of the edge's value. Every other value has the
+// single alternative ValueFacts(v, pol). Bounded.
+func valueAlternatives(v ssa.Value, pol bool, depth int) [][]Fact {
+	phi, ok := v.(*ssa.Phi)
+	if ok {
+		if b, isB := phi.Type().Underlying().(*types.Basic); !isB || b.Kind() != types.Bool {
+			ok = false
+		}
+	}
+	if !ok || depth > 4 {
+		return [][]Fact{ValueFacts(v, pol)}
+	}
+	var out [][]Fact
+	for i, ev := range phi.Edges {
+		if cb, isC := isConstBool(ev); isC && cb != pol {
+			continue
+		}
+		path := expandFacts(edgeFacts(phi.Block().Preds[i], phi.Block()))
+		if _, isC := isConstBool(ev); isC {
+			out = append(out, path)
+			continue
+		}
+		for _, alt := range valueAlternatives(ev, pol, depth+1) {
+			out = append(out, append(append([]Fact{}, path...), alt...))
+		}
+		if len(out) > 32 {
+			break
+		}
+	}
+	if len(out) == 0 {
+		return [][]Fact{ValueFacts(v, pol)}
+	}
+	return out
+}
